@@ -1203,7 +1203,7 @@ class SVG:
 
         nested_svgs = list(self._iter_nested_svgs(self.svg_root))
         if len(nested_svgs) == 0:
-            return
+            return self
 
         vb = self.view_box()
         if vb is None:
